@@ -211,7 +211,8 @@ def decode_generic(model, code):
 
 def cases(extra=None, theta=None, specs=None, **speckw):
     d = {"arm": arm_specs(**speckw) if specs is None else specs, "prep": preps(),
-         "theta": A.theta_codes() if theta is None else theta}
+         "theta": A.theta_codes() if theta is None else theta,
+         "theta_zero": st.sampled_from([False] * 9 + [True]), "thkw": st.sampled_from([False, False, True])}
     if extra:
         d.update(extra)
     return st.fixed_dictionaries(d)
@@ -386,6 +387,14 @@ def setup(case, ctx, after_build=None):
         theta = A.decode_theta(model, case["theta"], inside=True, margin=MARGIN)
     lo = np.maximum(model.mins, -A.TWO_PI) + MARGIN
     hi = np.minimum(model.maxs, A.TWO_PI) - MARGIN
+    if case.get("theta_zero"):
+        # the home configuration asked for explicitly (an all-zero joint vector is a joint vector like any other)
+        theta = np.minimum(np.maximum(np.zeros(n), lo), hi)
+        if not np.any(theta):
+            ctx.label("explicit all-zero joint vector")
+    _KW[0] = bool(case.get("thkw"))
+    if _KW[0]:
+        ctx.label("theta passed by keyword")
     if np.any(theta < lo - 1e-15) or np.any(theta > hi + 1e-15):
         raise AssertionError("theta generator left [min+1e-3, max-1e-3]")
     s.arm, s.model, s.n, s.theta = arm, model, n, theta
@@ -420,6 +429,17 @@ def setup(case, ctx, after_build=None):
     return s
 
 
+_KW = [False]
+
+
+def sut_th(fn, *args):
+    """Library call whose LAST argument is the joint vector: handed over positionally, or - when the case says so - as
+    the keyword ``theta=`` (the documented parameter name of every Jacobian / statics entry point)."""
+    if _KW[0]:
+        return sut(fn, *args[:-1], theta=args[-1])
+    return sut(fn, *args)
+
+
 def then_again(s, case, ctx, checks):
     """Run ``checks`` now and, when the case has a ``then`` operation (a move of the base or a change of tool), once
     more after it with the SAME joint vector and inputs: the Jacobian maps are functions of the arm as it is now."""
@@ -446,7 +466,7 @@ def rt(s, base=RTOL):
 def c_space(case, ctx):
     s = setup(case, ctx)
     arm, th, n = s.arm, s.theta, s.n
-    J = as_mat(sut(arm.jacobian, th.copy()), (6, n), "jacobian(theta)")
+    J = as_mat(sut_th(arm.jacobian, th.copy()), (6, n), "jacobian(theta)")
     compare(J, s.J, rt(s), "jacobian(theta) vs d FK/d theta (space twist columns)")
     sut(arm.FK, th.copy())
     J0 = as_mat(sut(arm.jacobian), (6, n), "jacobian()")
@@ -470,7 +490,7 @@ def c_body(case, ctx):
     s = setup(case, ctx)
     arm, th, n = s.arm, s.theta, s.n
     want = O.Ad(O.inv(s.T)) @ s.J
-    Jb = as_mat(sut(arm.jacobianBody, th.copy()), (6, n), "jacobianBody(theta)")
+    Jb = as_mat(sut_th(arm.jacobianBody, th.copy()), (6, n), "jacobianBody(theta)")
     compare(Jb, want, rt(s), "jacobianBody(theta) vs Ad(T^-1) J_space", scale=max(fro(want), fro(s.J)))
     sut(arm.FK, th.copy())
     Jb0 = as_mat(sut(arm.jacobianBody), (6, n), "jacobianBody()")
@@ -502,7 +522,7 @@ def c_link(case, ctx):
     want = np.zeros((6, n))
     for k, dT in enumerate(cols):
         want[:, k] = O.vee6(Tinv @ dT)              # body twist of link frame i
-    got = as_mat(sut(arm.jacobianLink, i, th.copy()), (6, n), "jacobianLink(i, theta)")
+    got = as_mat(sut_th(arm.jacobianLink, i, th.copy()), (6, n), "jacobianLink(i, theta)")
     scale = max(fro(want), fro(s.J))
     compare(got, want, rt(s), "jacobianLink(%d, theta) vs body twist columns of d FKLink/d theta" % i, scale=scale)
     if np.any(got[:, i + 1:] != 0.0):
@@ -522,7 +542,7 @@ def c_eetrans(case, ctx):
     Tp = np.eye(4)
     Tp[:3, 3] = s.T[:3, 3]
     want = O.Ad(O.inv(Tp)) @ s.J
-    got = as_mat(sut(arm.jacobianEETrans, th.copy()), (6, n), "jacobianEETrans(theta)")
+    got = as_mat(sut_th(arm.jacobianEETrans, th.copy()), (6, n), "jacobianEETrans(theta)")
     compare(got, want, rt(s), "jacobianEETrans(theta) vs Ad([I,p]^-1) J_space", scale=max(fro(want), fro(s.J)))
     # its linear rows are the velocity of the tool ORIGIN in world axes: d p / d theta
     def fp(x):
@@ -538,14 +558,19 @@ def c_eetrans(case, ctx):
 def c_numerical(case, ctx):
     s = setup(case, ctx)
     arm, th, n = s.arm, s.theta, s.n
-    got = as_mat(sut(arm.numericalJacobian, th.copy()), (6, n), "numericalJacobian(theta)")
+    got = as_mat(sut_th(arm.numericalJacobian, th.copy()), (6, n), "numericalJacobian(theta)")
     compare(got, s.J, rt(s, RTOL_NUM), "numericalJacobian(theta) vs d FK/d theta")
-    J = as_mat(sut(arm.jacobian, th.copy()), (6, n), "jacobian(theta)")
+    J = as_mat(sut_th(arm.jacobian, th.copy()), (6, n), "jacobian(theta)")
     compare(got, J, rt(s, RTOL_NUM), "numericalJacobian(theta) vs jacobian(theta)", scale=fro(s.J))
     # the joint vector left out: the arm's stored configuration (put there by FK(theta))
     sut(arm.FK, th.copy())
     got0 = as_mat(sut(arm.numericalJacobian), (6, n), "numericalJacobian()")
     compare(got0, s.J, rt(s, RTOL_NUM), "numericalJacobian() at the stored configuration vs d FK/d theta")
+    # ... which is still theta afterwards: the numerical Jacobian is a query, the arm has not been asked to move
+    wantb = O.Ad(O.inv(s.T)) @ s.J
+    Jb0 = as_mat(sut(arm.jacobianBody), (6, n), "jacobianBody() after numericalJacobian()")
+    compare(Jb0, wantb, rt(s), "jacobianBody() at the stored configuration, after a numericalJacobian() query, vs Ad(T^-1) J_space",
+            scale=max(fro(wantb), fro(s.J)))
 
 
 def c_velocity(case, ctx):
@@ -555,7 +580,7 @@ def c_velocity(case, ctx):
     ctx.label("qdot zero" if not np.any(qd) else "qdot generic")
     want = (s.J @ qd).reshape(6, 1)
     scale = fro(s.J) * max(1.0, float(np.linalg.norm(qd)))
-    got = as_mat(sut(arm.velocityAtEndEffector, qd.copy(), th.copy()), (6, 1), "velocityAtEndEffector(qdot, theta)")
+    got = as_mat(sut_th(arm.velocityAtEndEffector, qd.copy(), th.copy()), (6, 1), "velocityAtEndEffector(qdot, theta)")
     compare(got, want, rt(s), "velocityAtEndEffector(qdot, theta) vs J_space qdot", scale=scale)
     sut(arm.FK, th.copy())
     got0 = as_mat(sut(arm.velocityAtEndEffector, qd.copy()), (6, 1), "velocityAtEndEffector(qdot)")
@@ -603,13 +628,13 @@ def _statics_checks(s, arm, th, n, Wobj, W, qd):
     want = (s.J.T @ W).reshape(n, 1)
     wn = max(1.0, float(np.linalg.norm(W)))
     scale = fro(s.J) * wn
-    tau = as_mat(sut(arm.staticForces, Wobj, th.copy()), (n, 1), "staticForces(W, theta)")
+    tau = as_mat(sut_th(arm.staticForces, Wobj, th.copy()), (n, 1), "staticForces(W, theta)")
     compare(tau, want, rt(s), "staticForces(W, theta) vs J_space^T W  (W = [moment; force])", scale=scale)
     last = as_mat(sut(arm.getActuatorForces), (n, 1), "getActuatorForces()")
     if not np.array_equal(last, tau):
         raise Violation("getActuatorForces() differs from the torques staticForces just returned")
     # power: tau . qdot = W . (J qdot), with the library's own twist and with the reference twist
-    twist = as_mat(sut(arm.velocityAtEndEffector, qd.copy(), th.copy()), (6, 1), "velocityAtEndEffector")
+    twist = as_mat(sut_th(arm.velocityAtEndEffector, qd.copy(), th.copy()), (6, 1), "velocityAtEndEffector")
     p_joint = float(tau[:, 0] @ qd)
     p_tool = float(W @ twist[:, 0])
     p_ref = float(W @ (s.J @ qd))
@@ -623,6 +648,20 @@ def _statics_checks(s, arm, th, n, Wobj, W, qd):
     sut(arm.FK, th.copy())
     tau0 = as_mat(sut(arm.staticForces, Wobj), (n, 1), "staticForces(W)")
     compare(tau0, want, rt(s), "staticForces(W) at the stored state vs J_space^T W", scale=scale)
+    # the same map in the tool frame: the six numbers read as a BODY wrench give J_body^T W, and mapping them back
+    # returns them wherever the Jacobian has full rank
+    Jb = O.Ad(O.inv(s.T)) @ s.J
+    sut(arm.FK, s.other.copy())
+    tb = as_mat(sut_th(arm.staticForcesBody, Wobj, th.copy()), (n, 1), "staticForcesBody(W, theta)")
+    compare(tb, (Jb.T @ W).reshape(n, 1), rt(s), "staticForcesBody(W, theta) vs J_body^T W", scale=fro(Jb) * wn)
+    if n >= 6:
+        sv = np.linalg.svd(Jb, compute_uv=False)
+        if sv[-1] >= 1e-3:
+            backb = as_mat(sut_th(arm.staticForcesInvBody, tb.copy(), th.copy()), (6, 1), "staticForcesInvBody(tau, theta)")
+            tolb = 1e-9 * wn + 1e-13 * float(sv[0] / sv[-1]) * wn + rt(s) * fro(Jb) * wn / float(sv[-1]) * 2.0
+            db = float(np.abs(backb[:, 0] - W).max())
+            if db > tolb:
+                raise Violation("staticForcesInvBody(staticForcesBody(W)) vs W: max |diff| %.3g > %.3g" % (db, tolb))
 
 
 def c_statics_inv(case, ctx):
@@ -642,8 +681,8 @@ def _statics_inv_checks(s, arm, th, n, Wobj, W, ctx):
         ctx.skip("sigma_min(J) < 1e-3: outside 'wherever the Jacobian has full rank'")
     cond = float(sv[0]) / smin
     wn = float(np.linalg.norm(W))
-    tau = as_mat(sut(arm.staticForces, Wobj, th.copy()), (n, 1), "staticForces(W, theta)")
-    back = sut(arm.staticForcesInv, tau.copy(), th.copy())
+    tau = as_mat(sut_th(arm.staticForces, Wobj, th.copy()), (n, 1), "staticForces(W, theta)")
+    back = sut_th(arm.staticForcesInv, tau.copy(), th.copy())
     if not isinstance(back, lib()["Wrench"]):
         raise Violation("staticForcesInv returned %s, not a Wrench" % type(back).__name__)
     got = as_mat(back, (6, 1), "staticForcesInv(tau, theta)")
@@ -654,7 +693,7 @@ def _statics_inv_checks(s, arm, th, n, Wobj, W, ctx):
                         % (d, tol, smin, cond))
     # and from torques produced by the reference map
     tau_ref = (s.J.T @ W).reshape(n, 1)
-    got2 = as_mat(sut(arm.staticForcesInv, tau_ref.copy(), th.copy()), (6, 1), "staticForcesInv(J_ref^T W, theta)")
+    got2 = as_mat(sut_th(arm.staticForcesInv, tau_ref.copy(), th.copy()), (6, 1), "staticForcesInv(J_ref^T W, theta)")
     tol2 = (rt(s) * fro(s.J) * max(1.0, wn)) / smin * 2.0 + tol
     d2 = float(np.abs(got2[:, 0] - W).max())
     if d2 > tol2:
@@ -772,7 +811,7 @@ def c_link_masses(case, ctx):
                         + (" " + REGION_TAG if s.known_region else ""))
     # gravity off, wrench only: must reduce to plain statics
     if not np.any(masses[1:n + 1]):
-        plain = as_mat(sut(arm.staticForces, Wobj, th.copy()), (n, 1), "staticForces")
+        plain = as_mat(sut_th(arm.staticForces, Wobj, th.copy()), (n, 1), "staticForces")
         compare(got, plain, 1e-9, "staticForcesWithLinkMasses with massless links vs staticForces", scale=scale)
 
 
